@@ -1364,7 +1364,7 @@ pub fn check_all(obs: &Obs, out: &mut CaseOut) -> Summary {
         check_reporting(obs, &lanes, &views, out, &mut sum);
     }
     // ---- C17 at the runtime level
-    if obs.cfg.inactive_ms.is_some() && obs.stuck.is_empty() {
+    if obs.cfg.inactive_ms.is_some() && obs.cfg.nothing_stalls && obs.stuck.is_empty() {
         check_inactivity(obs, &lanes, &views, out);
     }
     sum
